@@ -13,8 +13,10 @@
 /* encoder direction: bytes emitted by carquet_bitpack8_32 are what the spec says, and the
  * independent spec decoder returns the original values */
 void h_pack8_layout(void) {
-  uint32_t v[8];
-  for (int i = 0; i < 8; i++) v[i] = nondet_u32();
+  int width = CQV_W;
+  uint32_t in0 = nondet_u32(), in1 = nondet_u32(), in2 = nondet_u32(), in3 = nondet_u32();
+  uint32_t in4 = nondet_u32(), in5 = nondet_u32(), in6 = nondet_u32(), in7 = nondet_u32();
+  uint32_t v[8] = {in0, in1, in2, in3, in4, in5, in6, in7};
   uint8_t *buf = malloc(CQV_W);
   __CPROVER_assume(buf != NULL);
   for (int i = 0; i < CQV_W; i++) buf[i] = nondet_u8();
